@@ -41,6 +41,14 @@ CLEAN_STMTS = [
     "match i % 2 == 0 {{ true => 1, false => {{ 2 }} }}; match true {{ false => 0 }}; match i {{ 1 | 2 | 3 | 4 | 5 | 6 | 7 | 8 => 1, 9..20 | 30..=40 => 2, _ => 3 }};",
     "match null {{ _ => {{ }} }}; match [i] {{ _ => 1 }}; match i * 1.5 {{ _ => 2 }};",
     "let mm = match byte(i % 2) {{ b'a' => {{ if {C} {{ {K}; }} 1 }}, _ => 2 }};",
+    # logical operators nested inside operands of other logical operators, with operands pending around them
+    "let on = i % 2 == 0; let odd = i % 3 == 0; let v1 = on && 10 + (odd && 7); let v2 = [1, on && (odd && 2), 3]; f(on && 1 + (odd || 0 && 5));",
+    "let p = i % 2; let q = i % 5; let r1 = (p && q) || (q && (p || 3 + (q && p))); let r2 = !(p && 1 + (q || 2) * (p && 4)); a[(p || 0) && (q && 1)];",
+    "let on = i % 2 == 0; let t3 = on && f(1 + (on && 2)) && [on && 1, (on || 2) && 3][1] && map {{1: on && (i && 2)}};",
+    # a loop written inside a block that is itself an operand, left through break / continue of that inner loop only
+    "let x1 = 1 + if i % 2 == 0 {{ let n = 0; while true {{ n = n + 1; if n >= 3 {{ break; }} }} n }} else {{ 0 }};",
+    "let x2 = [7, if true {{ let n = 0; loop {{ n = n + 1; if n < 3 {{ continue; }} break; }} n }}, 9]; f(2 * match i % 2 {{ 0 => {{ let m = 0; while m < 2 {{ m = m + 1; if m == 1 {{ continue; }} }} m }}, _ => 1 }});",
+    "let x3 = f(1 + if {C} {{ let n = 0; while n < 4 {{ n = n + 1; if n == 2 {{ break; }} }} n }} else {{ 5 }}) + 1;",
     "map {{i % 7: 1, i % 5: 2, 1: 3, 1.0: 4}}; map {{1: 1, 1: 2, 1: 3}}; [map {{\"k\": i, \"k\": i}}, 1];",
 ]
 DIRTY_STMTS = [
